@@ -316,6 +316,19 @@ theorem C11_update_reported (level : Nat) (simple : Bool) (cur : Option V) (curI
       · injection h with h; subst h
         exact ⟨hl, C11_update_step level simple cur vs w hs⟩
 
+/-- Bulk update of a whole manifest: EVERY requirement for which an update is reported — also one of several
+requirements naming the same package with different versions — is moved to a known version strictly above
+ITS OWN current version, with a difference the level of its package allows, and its level is not None. -/
+theorem C11_update_patch (rbs : List RB) (i : Nat) (rb : RB) (v : V) (hi : rbs[i]? = some rb)
+    (h : (suggestPatch rbs)[i]? = some (.update v)) :
+    rb.level ≠ lNone ∧ ∃ c, rb.cur = some c ∧ v ∈ rb.vs ∧ allows rb.level v.diff = true ∧ c.rank < v.rank := by
+  unfold suggestPatch at h
+  rw [List.getElem?_map, hi] at h
+  simp only [Option.map, Option.some.injEq] at h
+  split at h
+  · cases h
+  · exact C11_update_reported rb.level rb.simple rb.cur rb.curId rb.vs v h
+
 theorem C11_none_untouched_update (simple : Bool) (cur : Option V) (curId : Option Nat) (vs : List V) :
     suggestUpdate lNone simple cur curId vs = .keep := by simp [suggestUpdate]
 
@@ -329,5 +342,12 @@ theorem C11_update_fixed_witnesses :
 requirement (the former downgrade witness); with 2.6.0 known it moves up to it. -/
 example : suggest lMinor true (some ⟨9, 3, dSame, true⟩) [⟨0, 1, dMinor, false⟩, ⟨1, 2, dMinor, false⟩, ⟨2, 5, dMajor, false⟩] = .keep := by decide
 example : suggest lMinor true (some ⟨9, 3, dSame, true⟩) [⟨0, 1, dMinor, false⟩, ⟨1, 4, dMinor, false⟩, ⟨2, 5, dMajor, false⟩] = .update ⟨1, 4, dMinor, false⟩ := by decide
+
+/-! Non-vacuity: level minor, versions {1.2.0, 1.9.0, 2.1.0, 2.5.0}; one requirement at 2.1.0 and one at 1.2.0 for the
+same package get DIFFERENT targets (2.5.0 and 1.9.0), each within its own major line. -/
+example : suggestPatch
+    [⟨lMinor, false, true, some ⟨2, 2, dSame, true⟩, some 2, [⟨0, 0, dMajor, false⟩, ⟨1, 1, dMajor, false⟩, ⟨2, 2, dSame, true⟩, ⟨3, 3, dMinor, false⟩]⟩,
+     ⟨lMinor, false, true, some ⟨0, 0, dSame, true⟩, some 0, [⟨0, 0, dSame, true⟩, ⟨1, 1, dMinor, false⟩, ⟨2, 2, dMajor, false⟩, ⟨3, 3, dMajor, false⟩]⟩]
+    = [.update ⟨3, 3, dMinor, false⟩, .update ⟨1, 1, dMinor, false⟩] := by decide
 
 end Scalibr.Suggest
